@@ -957,7 +957,7 @@ func (fr *Frame) panicSite(g *Term, st *State, kind string, pos token.Pos, desc 
 	n := c.panicCount[kind]
 	c.panicCount[kind] = n + 1
 	c.oblige(&Obligation{Name: fmt.Sprintf("%s/panic#%s.%d", c.unitName, kind, n), Func: c.unitName, Kind: "panic",
-		Guard: g, Goal: tFalse, Pos: c.posOf(pos), Src: desc})
+		Guard: g, Goal: tFalse, Pos: c.posOf(pos), Src: desc, Tags: map[string]bool{"C07": true}})
 }
 
 // mayPanicIf records that the program panics when cond holds under g; execution continues under g && !cond.
@@ -970,7 +970,7 @@ func (fr *Frame) mayPanicIf(g *Term, cond *Term, st *State, kind string, pos tok
 		n := c.panicCount[kind]
 		c.panicCount[kind] = n + 1
 		c.oblige(&Obligation{Name: fmt.Sprintf("%s/panic#%s.%d", c.unitName, kind, n), Func: c.unitName, Kind: "panic",
-			Guard: g, Goal: tNot(cond), Pos: c.posOf(pos), Src: desc})
+			Guard: g, Goal: tNot(cond), Pos: c.posOf(pos), Src: desc, Tags: map[string]bool{"C07": true}})
 		return g
 	}
 	// partial correctness: continue only when no panic
